@@ -147,70 +147,147 @@ Proof.
   - rewrite mkeys_mset_present; [exact Hl | congruence].
 Qed.
 
-(* the operation-level conditions under which the indexes stay consistent:
-   - removeHost: no other host of the ring has the node-to-node address of the removed host;
-   - addOrUpdate of a known host: the update does not move its node-to-node address. *)
-Definition remove_ok (r : ring) (id : Z) : Prop :=
-  forall h, mget id (hosts r) = Some h ->
-  forall id2 h2, mget id2 (hosts r) = Some h2 -> id2 <> id -> n2n_key h2 <> n2n_key h.
-
-Definition update_ok (r : ring) (h : hostinfo) : Prop :=
-  forall e, mget (h_id h) (hosts r) = Some e -> n2n_key (update e h) = n2n_key e.
-
-Lemma remove_host_ring_inv r id : ring_inv r -> remove_ok r id -> ring_inv (fst (remove_host_ring r id)).
+(* ---------------------------------------------------------------- unindexAddrLocked *)
+Lemma find_none_all {A} (f : A -> bool) l : find f l = None -> forall x, In x l -> f x = false.
 Proof.
-  intros Hinv Hok. unfold remove_host_ring. destruct (mget id (hosts r)) as [h|] eqn:E; simpl; [|exact Hinv].
-  destruct Hinv as [Hnd Hid Hs Hc Hl]. specialize (Hok h E). constructor; simpl.
-  - apply NoDup_mkeys_mdel. exact Hnd.
-  - intros id0 x. rewrite mget_mdel. destruct (id0 =? id); [discriminate | apply Hid].
-  - intros k id0. rewrite mget_mdel. destruct (k =? n2n_key h) eqn:E1; [discriminate|]. intros Hk.
-    destruct (Hs k id0 Hk) as [h0 [Hh0 Hk0]]. exists h0. split; [|exact Hk0].
-    rewrite mget_mdel_other; [exact Hh0|]. intros ->. rewrite E in Hh0. inversion Hh0; subst. lia.
-  - intros id0 x. rewrite mget_mdel. destruct (id0 =? id) eqn:E1; [discriminate|]. intros Hx.
-    rewrite mget_mdel_other; [apply (Hc id0 x Hx)|]. apply (Hok id0 x Hx). lia.
-  - rewrite Hl. apply remove_first_mkeys. exact Hnd.
+  induction l as [|y l IH]; simpl; intros H x Hx; [contradiction|].
+  destruct (f y) eqn:E; [discriminate|]. destruct Hx as [<-|Hx]; auto.
 Qed.
 
-Lemma add_or_update_inv r h r' e : ring_inv r -> update_ok r h -> add_or_update r h = Some (r', e) -> ring_inv r'.
+Lemma unindex_other hs hl m k id k' : k' <> k -> mget k' (unindex hs hl m k id) = mget k' m.
 Proof.
-  intros Hinv Hok H. unfold add_or_update in H.
+  intros Hne. unfold unindex. destruct ((match mget k m with Some x => x | None => 0 end) =? id); [|reflexivity].
+  destruct (find (shares hs k id) hl).
+  - rewrite mget_mset_other by exact Hne. apply mget_mdel_other. exact Hne.
+  - apply mget_mdel_other. exact Hne.
+Qed.
+
+(* at the address itself: an entry of another host is kept; the host's own entry goes to a host that
+   shares the address, if there is one *)
+Lemma unindex_same hs hl m k id :
+  mget k (unindex hs hl m k id) =
+  if (match mget k m with Some x => x | None => 0 end) =? id then find (shares hs k id) hl else mget k m.
+Proof.
+  unfold unindex. destruct ((match mget k m with Some x => x | None => 0 end) =? id); [|reflexivity].
+  destruct (find (shares hs k id) hl); [apply mget_mset_same | apply mget_mdel_same].
+Qed.
+
+Lemma shares_true hs k id id' : shares hs k id id' = true ->
+  id' <> id /\ exists x, mget id' hs = Some x /\ n2n_key x = k.
+Proof.
+  unfold shares. intros H. apply andb_true_iff in H. destruct H as [H1 H2]. split; [lia|].
+  destruct (mget id' hs) as [x|]; [|discriminate]. exists x. split; [reflexivity | lia].
+Qed.
+
+(* what unindex guarantees when it is applied to a consistent index.  [hs0] is the host map the index is
+   consistent with (the host [h0] under [id] has address [k]); [hs1] is the map afterwards, in which every
+   other host is unchanged and [id] is gone or has another address; the scan uses [hs] which agrees with
+   [hs0] on the other hosts and ranges over [hl], a list holding every other host of [hs1]. *)
+Lemma unindex_consistent hs0 hs1 hs hl m k id h0 :
+  mget id hs0 = Some h0 -> n2n_key h0 = k ->
+  (forall id' x, id' <> id -> mget id' hs = Some x <-> mget id' hs0 = Some x) ->
+  (forall id' x, id' <> id -> mget id' hs1 = Some x <-> mget id' hs0 = Some x) ->
+  (forall id' x, id' <> id -> mget id' hs1 = Some x -> In id' hl) ->
+  (forall k' id', mget k' m = Some id' -> exists x, mget id' hs0 = Some x /\ n2n_key x = k') ->
+  (forall id' x, mget id' hs0 = Some x -> mget (n2n_key x) m <> None) ->
+  let m' := unindex hs hl m k id in
+  (forall k' id', mget k' m' = Some id' -> id' <> id /\ exists x, mget id' hs1 = Some x /\ n2n_key x = k')
+  /\ (forall id' x, id' <> id -> mget id' hs1 = Some x -> mget (n2n_key x) m' <> None).
+Proof.
+  intros Hh0 Hk0 Hhs Hhs1 Hhl Hs Hc m'. split.
+  - intros k' id' H. destruct (Z.eq_dec k' k) as [->|Hne].
+    + unfold m' in H. rewrite unindex_same in H.
+      destruct ((match mget k m with Some x => x | None => 0 end) =? id) eqn:E.
+      * apply find_some in H. destruct H as [_ H]. apply shares_true in H. destruct H as [Hne [x [Hx Hkx]]].
+        split; [exact Hne|]. exists x. split; [|exact Hkx]. apply Hhs1; [exact Hne|]. apply Hhs; assumption.
+      * destruct (Hs _ _ H) as [x [Hx Hkx]]. rewrite H in E.
+        assert (Hne : id' <> id) by lia. split; [exact Hne|]. exists x. split; [|exact Hkx]. apply Hhs1; assumption.
+    + unfold m' in H. rewrite unindex_other in H by exact Hne. destruct (Hs _ _ H) as [x [Hx Hkx]].
+      assert (Hne' : id' <> id). { intros ->. rewrite Hh0 in Hx. injection Hx as <-. congruence. }
+      split; [exact Hne'|]. exists x. split; [|exact Hkx]. apply Hhs1; assumption.
+  - intros id' x Hne Hx. assert (Hx0 : mget id' hs0 = Some x) by (apply Hhs1; assumption).
+    destruct (Z.eq_dec (n2n_key x) k) as [Hkx|Hkx].
+    + rewrite Hkx. unfold m'. rewrite unindex_same.
+      destruct ((match mget k m with Some y => y | None => 0 end) =? id) eqn:E.
+      * destruct (find (shares hs k id) hl) eqn:F; [discriminate|]. exfalso.
+        pose proof (find_none_all _ _ F id' (Hhl _ _ Hne Hx)) as Hf. unfold shares in Hf.
+        assert (Hg : mget id' hs = Some x) by (apply Hhs; assumption). rewrite Hg in Hf.
+        apply andb_false_iff in Hf. destruct Hf as [Hf|Hf]; lia.
+      * rewrite <- Hkx. apply (Hc _ _ Hx0).
+    + unfold m'. rewrite unindex_other by exact Hkx. apply (Hc _ _ Hx0).
+Qed.
+
+Lemma remove_host_ring_inv r id : ring_inv r -> ring_inv (fst (remove_host_ring r id)).
+Proof.
+  intros Hinv. unfold remove_host_ring. destruct (mget id (hosts r)) as [h|] eqn:E; simpl; [|exact Hinv].
+  destruct Hinv as [Hnd Hid Hs Hc Hl].
+  assert (Hl1 : remove_first id (hlist r) = mkeys (mdel id (hosts r))) by (rewrite Hl; apply remove_first_mkeys; exact Hnd).
+  destruct (unindex_consistent (hosts r) (mdel id (hosts r)) (hosts r) (remove_first id (hlist r)) (ip2id r) (n2n_key h) id h
+              E eq_refl) as [U1 U2]; auto.
+  - intros id' x Hne. tauto.
+  - intros id' x Hne. rewrite mget_mdel_other by exact Hne. tauto.
+  - intros id' x Hne Hx. rewrite Hl1. apply mget_keys. congruence.
+  - constructor; simpl.
+    + apply NoDup_mkeys_mdel. exact Hnd.
+    + intros id0 x. rewrite mget_mdel. destruct (id0 =? id); [discriminate | apply Hid].
+    + intros k id0 Hk. destruct (U1 _ _ Hk) as [_ H]. exact H.
+    + intros id0 x. rewrite mget_mdel. destruct (id0 =? id) eqn:E1; [discriminate|]. intros Hx.
+      apply (U2 id0 x); [lia|]. rewrite mget_mdel_other by lia. exact Hx.
+    + exact Hl1.
+Qed.
+
+Lemma add_or_update_inv r h r' e : ring_inv r -> add_or_update r h = Some (r', e) -> ring_inv r'.
+Proof.
+  intros Hinv H. unfold add_or_update in H.
   destruct (add_if_missing r h) as [[[r1 e1] b]|] eqn:E; [|discriminate].
   pose proof (add_if_missing_inv _ _ _ _ _ Hinv E) as Hinv1.
-  destruct b; inversion H; subst; clear H; [|exact Hinv1].
+  destruct b; [|injection H as <- <-; exact Hinv1].
   unfold add_if_missing in E. destruct (invalid_connect_addr h); [discriminate|].
-  destruct (mget (h_id h) (hosts r)) as [e0|] eqn:E0; inversion E; subst; clear E.
-  apply update_in_place_inv with (e := e1); auto.
-  - rewrite update_id; [apply (inv_id _ Hinv _ _ E0)|]. rewrite (inv_id _ Hinv _ _ E0). reflexivity.
+  destruct (mget (h_id h) (hosts r)) as [e0|] eqn:E0; [|discriminate]. injection E as <- <-.
+  injection H as <- <-.
+  assert (Hide : h_id e0 = h_id h) by (apply (inv_id _ Hinv _ _ E0)).
+  assert (Hid' : h_id (update e0 h) = h_id h) by (rewrite update_id; congruence).
+  destruct (n2n_key (update e0 h) =? n2n_key e0) eqn:Ek.
+  - cbn [negb andb]. apply update_in_place_inv with (e := e0); auto. lia.
+  - assert (Hz : or_z (h_id e0) (h_id h) = h_id h) by exact Hid'.
+    rewrite !Hz, Z.eqb_refl. cbn [negb andb].
+    destruct Hinv1 as [Hnd Hid Hs Hc Hl].
+    set (hs' := mset (h_id h) (update e0 h) (hosts r)).
+    destruct (unindex_consistent (hosts r) hs' hs' (hlist r) (ip2id r) (n2n_key e0) (h_id h) e0 E0 eq_refl) as [U1 U2]; auto.
+    + intros id' x Hne. unfold hs'. rewrite mget_mset_other by exact Hne. tauto.
+    + intros id' x Hne. unfold hs'. rewrite mget_mset_other by exact Hne. tauto.
+    + intros id' x Hne Hx. rewrite Hl. apply mget_keys. unfold hs' in Hx. rewrite mget_mset_other in Hx by exact Hne. congruence.
+    + constructor; simpl; fold hs'.
+      * apply NoDup_mkeys_mset. exact Hnd.
+      * intros id0 x. unfold hs'. rewrite mget_mset. destruct (id0 =? h_id h) eqn:E1.
+        -- apply Z.eqb_eq in E1. intros Hx. injection Hx as <-. congruence.
+        -- apply Hid.
+      * intros k id0. rewrite mget_mset. destruct (k =? n2n_key (update e0 h)) eqn:E1.
+        -- apply Z.eqb_eq in E1. intros Hx. injection Hx as <-. exists (update e0 h).
+           split; [unfold hs'; apply mget_mset_same | congruence].
+        -- intros Hk. destruct (U1 _ _ Hk) as [_ Hx]. exact Hx.
+      * intros id0 x Hx. rewrite mget_mset. destruct (n2n_key x =? n2n_key (update e0 h)) eqn:E1; [discriminate|].
+        destruct (Z.eq_dec id0 (h_id h)) as [->|Hne].
+        -- unfold hs' in Hx. rewrite mget_mset_same in Hx. injection Hx as <-. lia.
+        -- apply (U2 id0 x Hne Hx).
+      * unfold hs'. rewrite mkeys_mset_present; [exact Hl | congruence].
 Qed.
 
-Definition op_ok (r : ring) (o : rop) : Prop :=
-  match o with
-  | OAddIfMissing _ => True
-  | OAddOrUpdate h => update_ok r h
-  | ORemove id => remove_ok r id
-  end.
-
-Fixpoint ops_ok (r : ring) (ops : list rop) : Prop :=
-  match ops with
-  | [] => True
-  | o :: tl => op_ok r o /\ ops_ok (fst (ring_step r o)) tl
-  end.
-
-Lemma ring_step_inv r o : ring_inv r -> op_ok r o -> ring_inv (fst (ring_step r o)).
+Lemma ring_step_inv r o : ring_inv r -> ring_inv (fst (ring_step r o)).
 Proof.
-  intros Hinv Hok. destruct o as [h|h|id]; simpl.
+  intros Hinv. destruct o as [h|h|id]; simpl.
   - destruct (add_if_missing r h) as [[[r1 e1] b]|] eqn:E; simpl; [|exact Hinv].
     eapply add_if_missing_inv; eauto.
   - destruct (add_or_update r h) as [[r1 e1]|] eqn:E; simpl; [|exact Hinv].
     eapply add_or_update_inv; eauto.
-  - pose proof (remove_host_ring_inv r id Hinv Hok) as H. destruct (remove_host_ring r id); exact H.
+  - pose proof (remove_host_ring_inv r id Hinv) as H. destruct (remove_host_ring r id); exact H.
 Qed.
 
-Lemma ring_run_inv ops : forall r, ring_inv r -> ops_ok r ops -> ring_inv (ring_run r ops).
+Lemma ring_run_inv ops : forall r, ring_inv r -> ring_inv (ring_run r ops).
 Proof.
-  induction ops as [|o tl IH]; intros r Hinv Hok; simpl; [exact Hinv|].
-  destruct Hok as [Ho Htl]. apply IH; [apply ring_step_inv; assumption | exact Htl].
+  induction ops as [|o tl IH]; intros r Hinv; simpl; [exact Hinv|].
+  apply IH. apply ring_step_inv. exact Hinv.
 Qed.
 
-Lemma ring_history_consistent ops : ops_ok empty_ring ops -> lookups_consistent (ring_run empty_ring ops).
-Proof. intros H. apply ring_inv_lookups. apply ring_run_inv; [apply ring_inv_empty | exact H]. Qed.
+Lemma ring_history_consistent ops : lookups_consistent (ring_run empty_ring ops).
+Proof. apply ring_inv_lookups. apply ring_run_inv. apply ring_inv_empty. Qed.
